@@ -339,6 +339,9 @@ func (fx *respFixture) judge(s *Scenario, failed bool, st *RespStats, report fun
 	} else {
 		st.Successes++
 	}
+	if isArchive(s.Plugins[0].Out) {
+		st.ArchiveCases++
+	}
 	probe := s.Plugins[len(s.Plugins)-1]
 	probeEntry := probe.Files[len(probe.Files)-1]
 	if _, ok := validName(probeEntry.Name); !ok {
@@ -589,9 +592,6 @@ func runResponses(r *evid.Run, scratch string, names []string) {
 				s.Outcome = stage + ": " + strings.ReplaceAll(err.Error(), fx.root, "<root>")
 			} else {
 				s.Outcome = "ok"
-			}
-			if isArchive(s.Plugins[0].Out) {
-				st.ArchiveCases++
 			}
 			good := fx.judge(s, err != nil, st, func(sig, what string) { r.Violate(sig, what, s) })
 			r.Distinct("B|" + s.Kind + "|" + c13Class(it.name) + "|" + stage)
